@@ -732,3 +732,54 @@ pub fn option_leg(rep: &mut Report, key: &str, src: &str, base: &Config, base_te
         }
     }
 }
+
+/// The same module with every built-in type that follows a `: ` (members, variables, parameters, constants, overrides)
+/// written through a WGSL `alias` declared at the top. Struct names and types in other positions stay as they are.
+pub fn alias_types(src: &str) -> Option<String> {
+    if src.contains("alias ") {
+        return None;
+    }
+    let bytes: Vec<char> = src.chars().collect();
+    let mut out = String::with_capacity(src.len() + 256);
+    let mut aliases: Vec<String> = vec![];
+    let mut i = 0;
+    while i < bytes.len() {
+        if bytes[i] == ':' && i + 1 < bytes.len() && bytes[i + 1] == ' ' && i + 2 < bytes.len() && bytes[i + 2].is_ascii_lowercase() {
+            // capture the type up to a delimiter at angle depth 0
+            let mut j = i + 2;
+            let mut depth = 0i32;
+            while j < bytes.len() {
+                let c = bytes[j];
+                if c == '<' {
+                    depth += 1;
+                } else if c == '>' {
+                    depth -= 1;
+                } else if depth == 0 && (c == ',' || c == ';' || c == ')' || c == '\n' || c == '{' || c == '=' || (c == ' ' && j + 1 < bytes.len() && (bytes[j + 1] == '=' || bytes[j + 1] == '{' || bytes[j + 1] == '}'))) {
+                    break;
+                }
+                j += 1;
+            }
+            let ty: String = bytes[i + 2..j].iter().collect::<String>().trim_end().to_string();
+            let ok = !ty.is_empty() && depth == 0 && ty.chars().all(|c| c.is_ascii_alphanumeric() || "_<>, ".contains(c));
+            if ok {
+                let k = match aliases.iter().position(|a| *a == ty) {
+                    Some(k) => k,
+                    None => {
+                        aliases.push(ty.clone());
+                        aliases.len() - 1
+                    }
+                };
+                out.push_str(&format!(": TyAlias{k}"));
+                i += 2 + ty.chars().count();
+                continue;
+            }
+        }
+        out.push(bytes[i]);
+        i += 1;
+    }
+    if aliases.is_empty() {
+        return None;
+    }
+    let decls: String = aliases.iter().enumerate().map(|(k, t)| format!("alias TyAlias{k} = {t};\n")).collect();
+    Some(format!("{decls}{out}"))
+}
